@@ -396,8 +396,11 @@ def one_design(ctx, g, cases, meta):
     ctx.violation(f'C14:all-named-objects', f'{g.tag}: get_all_object_filter(True) differs from the objects reachable from top: {miss}',
                   {'design_source': src, 'unlisted': miss})
   post = post_names(g, top, r0)
-  for n in post:
-    eval(n, {'s': top})
+  for n in list(post):
+    try: eval(n, {'s': top})
+    except Exception as e:
+      post.remove(n)
+      ctx.violation('C14:post-eval', f'{g.tag}: accessing {n} after elaboration raises {type(e).__name__}: {e}', {'design_source': src, 'expression': n})
   objs = reach(top)
   obs = observe(top, objs)
   bad = python_checks(ctx, g.tag, src, top, obs, post)
@@ -405,7 +408,9 @@ def one_design(ctx, g, cases, meta):
     ctx.violation(f'C14:{kind}', f'{g.tag}: {what}', {'design_source': src, 'object': n, 'post_elaboration_accesses': post})
   # second elaboration of a fresh instance (same code, same post-elaboration accesses): same name set
   top2 = cls(); top2.elaborate()
-  for n in post: eval(n, {'s': top2})
+  for n in post:
+    try: eval(n, {'s': top2})
+    except Exception: pass
   n1, n2 = sorted(o['name'] for o in obs), sorted(repr(x) for x in reach(top2))
   if n1 != n2:
     d = sorted(set(n1) ^ set(n2))[:6]
@@ -509,7 +514,7 @@ def run(ctx):
   rng = ctx.rng
   cases, meta = [], []
   one_design(ctx, DGen(random.Random(1), 'D0', DIRECTED[0][1], directed_tree()), cases, meta)
-  N = 200 if quick else 2500
+  N = 200 if quick else 1800
   for j in range(N):
     while True:
       g = Gen(random.Random(rng.randrange(1 << 30)), f'H{j}', rng.choice(['small', 'medium', 'medium', 'large']))
@@ -543,3 +548,20 @@ def main(ctx):
   return ctx.finish(rule='random hierarchies (depth 0-3; nested lists of components / interfaces / signals / method ports; bitstruct signals with list fields and nested structs; '
                          'field / slice / slice-of-slice / bit-index signals materialised by bare evaluation, connect to constants, update-block reads and post-elaboration access) '
                          '+ one directed design; distinct = (design, its set of object names)')
+
+def replay(ctx, r):
+  """./check C14 --replay <file>: re-run the implementation-side checks on the stored design"""
+  setup_impl_path()
+  rp = r['replay']
+  src = rp['design_source']
+  cls, mod = sc.load_source(ctx, src, 'Top')
+  top = cls(); top.elaborate()
+  post = rp.get('post_elaboration_accesses', [])
+  for n in post:
+    try: eval(n, {'s': top})
+    except Exception as e: print(f'STILL FAILS post-eval {n}: {e!r}')
+  bad = python_checks(ctx, 'replay', src, top, observe(top, reach(top)), post)
+  for kind, what, n in bad[:10]: print(f'STILL FAILS {kind}: {what}')
+  if not bad: print('all implementation-side name checks pass on this design')
+  shutil.rmtree(ctx.scratch, ignore_errors=True)
+  return 1 if bad else 0
